@@ -317,6 +317,20 @@ fn bolt_shape(out: &mut Out, r: &mut Rng, e: &Env, m: usize, rr: usize, n: usize
     verdict(out, &format!("bolt_cc_dc {} {} {} {} {} k{} {}", nn, t, m, rr, n, kind, tag), &format!("ccdc-{}", c), got, &want);
 }
 
+/// degenerate inner dimension: `MatmulBoltCcDc::new` accepts `r = 0`, but `multiply` has no block product to unwrap; the model
+/// refuses in the same way (this is why the end-to-end theorem `bolt_cc_dc_new` carries `0 < r`)
+fn bolt_dc_r0(out: &mut Out, e: &Env, m: usize, n: usize) {
+    let nn = e.s.n; let t = e.s.t;
+    let got = guard(|| {
+        let h = MatmulBoltCcDc::new(m, 0, n, nn);
+        let xc = h.encode_inputs(&e.enc, &[]).encrypt_symmetric(&e.s.encryptor).expand_seed(&e.s.ctx);
+        let wc = h.encode_weights(&e.enc, &[]).encrypt_symmetric(&e.s.encryptor).expand_seed(&e.s.ctx);
+        let y = h.multiply(&e.enc, &e.s.evaluator, &e.gk, &e.rk, &xc, &wc);
+        fl(&h.decode_outputs(&e.enc, &y.decrypt(&e.s.decryptor)))
+    });
+    out.raw(&format!("bolt_ccdc_r0 {} {} {} {} => {} # ccdcr0", nn, t, m, n, got));
+}
+
 // ------------------------------------------------------------------ RNS plaintext wrapper
 
 struct RnsEnv { n: usize, ts: Vec<u64>, enc: RnspBatchEncoder, encryptor: RnspEncryptor, decryptor: RnspDecryptor, ev: RnspEvaluator, rk: RnspRelinKeys }
@@ -462,6 +476,7 @@ pub fn run(out: &mut Out, thorough: bool, seed: u64, extra: &[String]) {
             if want("bolt") {
                 let mut idx = 0u64;
                 for (m, rr, nn) in dims(hi) { idx += 1; bolt_shape(out, &mut r, &e, m, rr, nn, [0u64, 0, 1, 4, 3][(idx % 5) as usize], &format!("exh-n{}", n)); }
+                bolt_dc_r0(out, &e, 1, 1); bolt_dc_r0(out, &e, 2, 3);
             }
         }
     }
